@@ -273,7 +273,7 @@ class EObject(ENotifer, metaclass=Metasubinstance):
                 value = next((val for val in fvalue
                               if getattr(val, '_wrapped', None) is self),
                              None)
-                if value:
+                if value is not None:
                     fvalue.remove(value)
             else:
                 if self is fvalue or self is owner:
@@ -281,7 +281,7 @@ class EObject(ENotifer, metaclass=Metasubinstance):
                     continue
                 value = (fvalue if getattr(fvalue, '_wrapped', None) is self
                          else None)
-                if value:
+                if value is not None:
                     owner.eSet(feature, None)
 
     @property
@@ -294,7 +294,7 @@ class EObject(ENotifer, metaclass=Metasubinstance):
                 values = self.__getattribute__(feature.name)
             else:
                 values = [self.__getattribute__(feature.name)]
-            children.extend((x for x in values if x))
+            children.extend((x for x in values if x is not None))
         return children
 
     def eAllContents(self):
